@@ -5,6 +5,7 @@
 unsafe extern "Rust" {
     safe fn __compio_verif_point(site: u32);
     safe fn __compio_verif_spawn(f: Box<dyn FnOnce() + Send + 'static>);
+    safe fn __compio_verif_op_supported(code: u8) -> i8;
 }
 
 /// A scheduling point: a controlled scheduler may switch threads here.
@@ -16,4 +17,16 @@ pub(crate) fn point(site: u32) {
 /// Start a thread the harness can schedule.
 pub(crate) fn spawn(f: impl FnOnce() + Send + 'static) {
     __compio_verif_spawn(Box::new(f))
+}
+
+/// Whether the harness wants the io_uring opcode `code` reported as supported
+/// (the probe result is cached per process; a simulated kernel varies it per
+/// run). `None`: ask the kernel.
+#[allow(dead_code)]
+pub(crate) fn op_supported(code: u8) -> Option<bool> {
+    match __compio_verif_op_supported(code) {
+        0 => Some(false),
+        1 => Some(true),
+        _ => None,
+    }
 }
